@@ -102,3 +102,23 @@ def signature(clause, feats):
     """clause + the input features that known findings are keyed on"""
     keep = [f for f in feats if f in ("dupassign", "foralleff", "lopen-cond", "lopen-tgoal")]
     return clause + ("|" + ",".join(keep) if keep else "")
+
+
+def replay(ctx, rec):
+    from unified_planning.engines.plan_validator import SequentialPlanValidator, TimeTriggeredPlanValidator
+
+    P, pl = rec["data"]["problem"], rec["data"]["plan"]
+    problem = upj.build(P)
+    r = {"steps": pl["steps"], "tt": "", "seq": "", "tt_reason": "", "seq_reason": ""}
+    r["tt"], r["tt_reason"], _ = timeobs.validate(TimeTriggeredPlanValidator, problem, timeobs.build_tt_plan(problem, pl["steps"]))
+    if "C05" == "C04":
+        steps = sorted(pl["steps"], key=lambda s: timeobs.frac(s["t"]))
+        r["seq"], r["seq_reason"], _ = timeobs.validate(SequentialPlanValidator, problem, timeobs.build_seq_plan(problem, steps))
+    batch = [{"pid": 1, "P": P, "keys": upj.keys_of(P), "plans": [r]}]
+    res, _ = c04.judge(ctx, batch, "C05")
+    fails = [p for p in res.printed if p and p[0] == "FAIL"]
+    for f in fails:
+        print("REPRODUCED property=C05 clause=%s" % f[3])
+    if not fails:
+        print("replay: no violation on the current tree (tt %s)" % r["tt"])
+    return 1 if fails else 0
